@@ -254,7 +254,7 @@ func genHistory(r *rand.Rand) History {
 }
 
 func runCache(e *env, replayCases []string) error {
-	e.sum.Rule = "histories of the built seccomp-profiler over one private cache directory: faulty runs (disassembler missing, exiting non-zero after j of 6 chunks, dying from SIGKILL after j chunks, profiler SIGKILLed at chunk boundary j, write(2) to the temporary file failing with EFBIG after q/12 of the bytes — for the small variant, whose whole cache file fits into bufio's 4 KB buffer, that write is the final Flush —, binary rebuilt in between; plus direct calls of doObjdump with hashes sharing 32/63/0 leading characters and with the empty hash) followed by normal runs; every run's exit status, final cache path (absent / complete for variant v / other) and log line (hit / written) are compared with CacheSpec.doObjdump, and every normal run's stdout with the cold-cache output; systematic part: every boundary j for kill and fail; a history is non-trivial if it contains a faulty run; distinct by history"
+	e.sum.Rule = "histories of the built seccomp-profiler over one private cache directory: faulty runs (disassembler missing, exiting non-zero after j of 6 chunks, dying from SIGKILL after j chunks, profiler SIGKILLed at chunk boundary j, write(2) to the temporary file failing with EFBIG after q/12 of the bytes — for the small variant, whose whole cache file fits into bufio's 4 KB buffer, that write is the final Flush —, binary rebuilt in between (same path, same size, same modification time, other content), the cache path being a symbolic link to a file elsewhere, other disassemblers (objdump, llvm-objdump, …) as decoys on the PATH without go and a GOROOT whose go fails after three chunks; plus direct calls of doObjdump with hashes sharing 32/63/0 leading characters and with the empty hash) followed by normal runs; every run's exit status, final cache path (absent / complete for variant v / other) and log line (hit / written) are compared with CacheSpec.doObjdump, and every normal run's stdout with the cold-cache output; systematic part: every boundary j for kill and fail; a history is non-trivial if it contains a faulty run; distinct by history"
 	rng := rand.New(rand.NewSource(*seed))
 	c, err := newCacheRig(e, rng)
 	if err != nil {
